@@ -84,6 +84,12 @@ pub fn gen_number(r: &mut Rng, cfg: &GenCfg) -> MVal {
                     MVal::f(*r.pick(&[f64::NAN, f64::INFINITY, f64::NEG_INFINITY]))
                 } else if r.chance(1, 4) {
                     MVal::f(r.range(-4000, 4000) as f64 / 8.0)
+                } else if r.chance(1, 4) {
+                    // a full 53-bit mantissa at a moderate magnitude: its shortest decimal form has 16-17 significant
+                    // digits and no exponent, the case where a decimal-to-double shortcut is most likely to be off by one ulp
+                    let m = (r.next_u64() >> 11) as f64 / (1u64 << 53) as f64;
+                    let scale = [1e-4, 1e-2, 1.0, 1e3, 1e7, 1e12, 1e15][r.idx(7)];
+                    MVal::f(if r.chance(1, 4) { -(m * scale) } else { m * scale })
                 } else {
                     MVal::f(*r.pick(F64S))
                 }
@@ -152,16 +158,37 @@ pub fn gen_scalar(r: &mut Rng, cfg: &GenCfg) -> MVal {
 /// 255/256/257 and 65,535/65,536/65,537 bytes or elements.
 pub fn gen_boundary_value(r: &mut Rng, cfg: &GenCfg) -> MVal {
     let small = |r: &mut Rng| -> MVal {
-        match r.below(4) {
+        match r.below(6) {
             0 => MVal::Null,
             1 => MVal::Bool(r.chance(1, 2)),
             2 => MVal::U64(r.below(300)),
+            3 => MVal::Arr(vec![]),
+            4 => MVal::Obj(Default::default()),
             _ => MVal::Str(r.pick(&["", "a", "é"]).to_string()),
         }
     };
     // the 65,536-element kinds cost milliseconds per call: one boundary value in six
-    let kind = if r.chance(1, 6) { *r.pick(&[4u64, 6, 7]) } else { *r.pick(&[0u64, 1, 2, 3, 5, 8, 9]) };
+    let kind = if r.chance(1, 6) { *r.pick(&[4u64, 6, 7]) } else { *r.pick(&[0u64, 1, 2, 3, 5, 8, 9, 10]) };
     match kind {
+        10 => {
+            // a list of records, each carrying an empty array and an empty object: hundreds of empty containers in one
+            // document at no depth (where a per-document counter that is not decremented on the empty fast path runs out)
+            let n = *r.pick(&[255usize, 256, 300, 600, 1100]);
+            MVal::Arr(
+                (0..n)
+                    .map(|i| {
+                        let mut m = BTreeMap::new();
+                        m.insert("id".to_string(), MVal::U64(i as u64));
+                        m.insert("tags".to_string(), MVal::Arr(vec![]));
+                        m.insert("attrs".to_string(), MVal::Obj(Default::default()));
+                        if i % 3 == 0 {
+                            m.insert("name".to_string(), small(r));
+                        }
+                        MVal::Obj(m)
+                    })
+                    .collect(),
+            )
+        }
         7 => {
             // an object with 65,535 / 65,536 / 65,537 members
             let n = *r.pick(&[65_535usize, 65_536, 65_537]);
@@ -345,7 +372,13 @@ pub fn gen_deep_narrow(r: &mut Rng, depth: usize) -> MVal {
 /// A document with one payload of 2^24 bytes or slightly more (the entry length field is 28 bits wide;
 /// 2^24 is where a length narrowed to three bytes first goes wrong). About 16 MiB: used very rarely.
 pub fn gen_huge_payload(r: &mut Rng) -> MVal {
-    let n = (1usize << 24) + *r.pick(&[0usize, 1, 3, 300]);
+    gen_huge_payload_bits(r, &[24])
+}
+
+/// A document with one payload of 2^b (+ a little) bytes, b drawn from `bits`: every high bit of the 28-bit length
+/// field of an entry word set in turn.
+pub fn gen_huge_payload_bits(r: &mut Rng, bits: &[u32]) -> MVal {
+    let n = (1usize << *r.pick(bits)) + *r.pick(&[0usize, 1, 3, 300]);
     let big = MVal::Str("a".repeat(n));
     match r.below(4) {
         0 => big,
